@@ -55,7 +55,7 @@ func RunShards(n int, testName string) (exit int, evidence []string) {
 			// hang: make it dump its goroutines (SIGQUIT) instead of waiting for ever
 			err := cmd.Start()
 			if err == nil {
-				limit := 55 * time.Minute
+				limit := 65 * time.Minute
 				if v, e := strconv.Atoi(os.Getenv("VERIF_SHARD_TIMEOUT_S")); e == nil && v > 0 {
 					limit = time.Duration(v) * time.Second
 				}
